@@ -573,15 +573,18 @@ def compute_mro(cls:'Class') -> Sequence[Union['Class', str]]:
                     finalbases.append(base.fullName())
                 else:
                     # Only re-resolve the base object if the base was None.
-                    resolved_base = o.parent.resolveName(str_base)
-                    if not isinstance(resolved_base, Class):
-                        # The class might have been moved (re-exported) since: the name 
-                        # as expanded in its original scope still designates the base.
-                        try:
-                            resolved_base = o.system.find_object(o._initialbases[i])
-                        except LookupError:
-                            resolved_base = None
-                    if isinstance(resolved_base, Class):
+                    # The name as expanded when the class statement was visited designates 
+                    # the base, also when that object has been moved (re-exported) since, 
+                    # or when the name has been bound to something else afterwards
+                    # (class H(H): the name now designates the class itself).
+                    resolved_base: Optional[Documentable]
+                    try:
+                        resolved_base = o.system.find_object(o._initialbases[i])
+                    except LookupError:
+                        resolved_base = None
+                    if not isinstance(resolved_base, Class) or resolved_base is o:
+                        resolved_base = o.parent.resolveName(str_base)
+                    if isinstance(resolved_base, Class) and resolved_base is not o:
                         base = resolved_base
                         finalbaseobjects.append(base)
                         finalbases.append(base.fullName())
